@@ -210,3 +210,28 @@ def write_evidence(prop, tier, seed, coverage, wall, violations, assumptions, le
         json.dump(doc, f, indent=1, sort_keys=True, ensure_ascii=False)
     os.replace(tmp, path)
     return path
+
+
+_HIST = re.compile(r'^<<"HIST", (".*")>>$', re.M)
+
+
+def session_hists(work, tier, seed):
+    """spec -> code: design check of SessionSys.tla, then behaviours chosen by TLC's simulator (one JSON list of
+    action records per line in <work>/sessions.jsonl). Returns (path, states, transitions, info list)."""
+    d = design_mc('SessionSys', 'MC_SessionSys.cfg', work)
+    num = 400 if tier == 'quick' else 4000
+    r = run_tlc('SessionSys', 'SIM_SessionSys.cfg', work, workers=1,
+                extra_args=['-simulate', f'num={num}', '-depth', '11', '-seed', str(seed + 11)], simulate=True,
+                timeout=1800)
+    hists = _HIST.findall(r['out'])
+    if not r['completed'] or len(hists) != num:
+        raise MachineryError(f'TLC simulation of SessionSys: {len(hists)} behaviours for num={num}:\n' + r['out'][-1500:])
+    path = os.path.join(work, 'sessions.jsonl')
+    with open(path, 'w', encoding='utf-8') as f:
+        for h in hists:
+            f.write(json.loads(h) + '\n')
+    info = [{'module': 'SessionSys', 'cfg': 'MC_SessionSys.cfg', 'distinct_states': d['distinct'],
+             'states_generated': d['generated'], 'wall_s': round(d['wall'], 1)},
+            {'module': 'SessionSys (simulate)', 'cfg': 'SIM_SessionSys.cfg', 'behaviours_emitted': len(hists), 'depth': 10,
+             'wall_s': round(r['wall'], 1)}]
+    return path, d['distinct'], d['generated'], info
